@@ -406,6 +406,8 @@ static int get_samp(struct module_data *m, int size, HIO_HANDLE *f, void *parm)
 			return -1;
 
 		hio_read(mod->xxi[i].name, 1, name_len, f);
+		/* a 32 byte name fills the whole array: keep it terminated */
+		mod->xxi[i].name[sizeof(mod->xxi[i].name) - 1] = '\0';
 	}
 
 	if (hio_read32b(f) != MAGIC_SVOL)	/* SVOL */
